@@ -192,13 +192,14 @@ pub fn def() -> PropertyDef {
         level: "exploration",
         rule: "Cases = every point of the (bits, aggregation, capacity) lattice once (degree round-robin) plus random lattice points x all six degrees, \
                each with per-slot value class {0,1,2^b-1,2^(b-1),2^(b-1)-1,uniform,top-half}, promise class {None,0,v,v-1,v/3,uniform<=v}, blinding \
-               component classes {uniform,0,1,-1}, transcript context, prover RNG model {ChaCha, all-zero, constant, period-8, counter} and seed \
+               component classes {uniform,0,1,-1}, transcript context, prover RNG model {ChaCha, all-zero, constant, period-8, counter, operating-system entropy through the convenience entry RangeProof::prove} and seed \
                class; on engines R (Ristretto) and F (free module). Oracle: prove Ok, verify Ok in all three modes (that an INDEPENDENT verifier accepts the same bytes is decided by C02 and C19, not here); the proof is also accepted in a 2-batch next to an honest proof of another aggregation size (both orders). Second generator: all-honest batches of 2-700 members (sizes around 256 and 512 stratified) drawn from a pool of 2-5 honest members with mixed aggregation sizes must be accepted with exactly k results. Non-trivial = the tuple (bits,m,cap,degree,value class,promise class,seed?,rng model) \
                is outside the repository suite's 16 tuples-with-healthy-RNG; distinct by that tuple."
             .into(),
         assumptions: vec![
             "engine F runs the library's generic prover/verifier over a harness-defined free module; src/ristretto.rs and dalek arithmetic are exercised on engine R only".into(),
             "size bound bits*capacity <= 2048 (quick F) / 512 (quick R) / 8192 (thorough F) / 2048 (thorough R) is a cost bound of the check".into(),
+            "one RNG model in fifteen is operating-system entropy (the only way to reach RangeProof::prove): those proofs are not reproducible byte for byte, the verdicts judged are".into(),
         ],
         exhaustive: false,
         subs: vec![
